@@ -179,6 +179,21 @@ func allocCases(seed int64, tier string) []allocCase {
 			}
 		}
 	}
+	// 5c. a ladder of very deep chains that stop early (truncated, or with an innermost list that declares more than is
+	// there): 128 Ki .. 1 Mi levels (thorough: 2 Mi) - far below the depth of the known finding, and no item is ever built,
+	// so the decoder has nothing to do but come back
+	ladder := []int{1 << 17, 1 << 18, 1 << 19, 3 << 18, 1 << 20}
+	if tier == "thorough" {
+		ladder = append(ladder, 3<<19, 1<<21)
+	}
+	for _, d := range ladder {
+		t := make([]byte, 0, 2*d+4)
+		for i := 0; i < d; i++ {
+			t = append(t, 0x01, 0x01)
+		}
+		add("deep-chain-ladder", "", t)
+		add("deep-chain-ladder", "", append(clone(t), 0x03, 0xFF, 0xFF, 0xFF))
+	}
 	// 6. the extreme: 16 MiB of nested one-element lists (a known finding, kept last)
 	{
 		d := (1<<24 - 1 - 3) / 2
